@@ -573,6 +573,8 @@ class Machine:
         self.lit_cache = {}
         self.callkey_cache = {}
         self.fn_stack = []
+        self.entry_observers = {}   # crate function name -> callback(ctx, args) run when the function is entered
+        self.observers = {}    # crate function name -> callback(ctx, args, result) run when the function returns
         self.hash_ties_any = False   # max_by_key / min_by_key directly over a hash iteration: any of the tied extremal entries
         self.stubs = {}        # callee key -> python function (harness-level environment stubs)
         self.encoded = {}      # crate function name -> call count (evidence)
@@ -672,6 +674,10 @@ class Machine:
         if self.depth > 400:
             raise BoundExceeded('call depth')
         self.fn_stack.append(fn.name)
+        if self.entry_observers:
+            ob = self.entry_observers.get(fn.name)
+            if ob is not None:
+                ob(ctx, args)
         bb = 0
         blocks = fn.blocks
         try:
@@ -701,6 +707,10 @@ class Machine:
                         raise Unsupported('diverging call returned: ' + t.text[:100])
                     bb = t.a['target']
                 elif k == 'return':
+                    if self.observers:
+                        ob = self.observers.get(fn.name)
+                        if ob is not None:
+                            ob(ctx, args, L[0])
                     return L[0]
                 elif k == 'drop':
                     bb = t.a['target']
@@ -1121,6 +1131,20 @@ class Machine:
                     'MAX': 1.7976931348623157e308 if ty == 'f64' else 3.4028234663852886e38,
                     'MIN': -1.7976931348623157e308 if ty == 'f64' else -3.4028234663852886e38}
             return FP(vals[what], ty)
+        sm = re.match(r'^([A-Za-z_][A-Za-z_0-9:]*?)(?:::<.*>)?\s*\{\{\s*(.*?)\s*\}\}$', t)
+        if sm:
+            # constant struct literal whose fields are zero-sized fn items: `SwapEdits::<..> {{ can_swap: can_swap }}`
+            names, vals = [], []
+            for part in sm.group(2).split(','):
+                if ':' not in part:
+                    raise Unsupported('const struct literal ' + t[:80])
+                k, v = part.split(':', 1)
+                v = v.strip()
+                if not re.fullmatch(r'[A-Za-z_][A-Za-z_0-9:]*', v):
+                    raise Unsupported('const struct literal ' + t[:80])
+                names.append(k.strip())
+                vals.append(FnRef(v))
+            return Struct(sm.group(1).split('::')[-1], vals, names)
         if t.startswith('ZeroSized: '):
             ty = t[len('ZeroSized: '):].strip()
             if ty.startswith('{closure@'):
